@@ -11,15 +11,16 @@
    _find_next (build/proposed_fixes/C16_find_next_offset.diff); [false] = the test "i < size". *)
 From Coq Require Import ZArith List.
 Import ListNotations.
-Require Import SC3.model.Alloc SC3.model.NodeId SC3.lib.PyNum SC3.gen.Gen_builtins.
+Require Import SC3.model.Alloc SC3.model.AllocServer SC3.model.AllocReserve SC3.model.NodeId SC3.model.NodeIdGen SC3.lib.PyNum SC3.gen.Gen_builtins.
 Require Import SC3.proofs.C16_base SC3.proofs.C16_inv SC3.proofs.C16_alloc SC3.proofs.C16_free
-               SC3.proofs.C16_main SC3.proofs.C16_thms SC3.proofs.C16_nodeid.
+               SC3.proofs.C16_main SC3.proofs.C16_thms SC3.proofs.C16_nodeid SC3.proofs.C16_server SC3.proofs.C16_reserve.
 Open Scope Z_scope.
 
-(* For every partition size, reserved offset, client offset, every history of alloc(n >= 1) and
-   free(address inside the partition) -- live, already freed or never allocated -- and every tie-break
-   oracle: no operation raises, the invariant holds afterwards, and the used blocks are exactly the
-   allocations handed out and not freed since. *)
+(* For every partition size, reserved offset, client offset, every history of alloc(n), n >= 0, and
+   free(a) of ANY integer a -- live, already freed, never allocated, outside the partition (ignored by the
+   guard at the top of free) -- and every tie-break oracle: no operation raises, the invariant holds
+   afterwards, and the used blocks are exactly the allocations of n >= 1 handed out and not freed since
+   ([wf_op _ _ (OAlloc n c)] is [0 <= n], [wf_op _ _ (OFree a)] is [True]). *)
 Theorem AInv_reachable : forall sz p o ops, 0 <= p < sz -> Forall (wf_op o sz) ops ->
   exists s outs, (s0 <- init sz p o ;; run true s0 ops) = Ok (s, outs) /\ AInv s /\
     pos s = p + o /\ off s = o /\ size s = sz /\
@@ -56,9 +57,55 @@ Theorem double_free_is_noop : forall s a n s', AInv s -> is_live s a n -> free t
   free true s' a = Ok s'.
 Proof. exact double_free_is_noop_proof. Qed.
 
-Theorem free_of_non_live_address_is_noop : forall s a, AInv s -> off s <= a < off s + size s ->
+Theorem free_of_non_live_address_is_noop : forall s a, AInv s ->
   (forall n, ~ is_live s a n) -> free true s a = Ok s.
 Proof. exact free_not_live_noop. Qed.
+
+(* an address outside the client's partition (a hardware bus, another client's bus) is ignored: the state is
+   unchanged, for every state and both variants of _find_next *)
+Theorem free_outside_partition_is_ignored : forall rel s a, ~ (off s <= a < off s + size s) -> free rel s a = Ok s.
+Proof. exact free_outside. Qed.
+
+(* alloc(0) returns None or the start of some free block; cells, top and the live allocations do not change *)
+Theorem alloc_zero_changes_nothing_live : forall s c, AInv s ->
+  exists s' r, alloc s 0 c = Ok (s', r) /\ AInv s' /\ (forall a, at_ s' a = at_ s a) /\
+    pos s' = pos s /\ off s' = off s /\ size s' = size s /\
+    match r with Some a => exists b, at_ s a = Some b /\ bused b = false | None => s' = s end.
+Proof. exact alloc_zero_spec. Qed.
+
+(* alloc(n) with n < 0 is outside the alphabet for a reason: the code does not refuse it and it breaks safety *)
+Theorem alloc_negative_size_breaks_safety :
+  exists s outs, (s0 <- init 8 0 0 ;; run true s0 [OAlloc 2 0; OAlloc (-1) 0; OAlloc 7 1]) = Ok (s, outs) /\
+    outs = [Some 0; Some 2; Some 1] /\ is_live s 0 2 /\ is_live s 1 7.
+Proof. exact alloc_negative_size_breaks_safety_proof. Qed.
+
+(* server level: for the allocators Server builds for the client ids 0 .. max_logins-1 (total indices of which
+   the first io are hardware channels, reserved per client) and ANY interleaved history of the clients'
+   allocs and frees: nothing raises, and all live ranges of all clients are pairwise disjoint and inside
+   [io, total) *)
+Theorem server_live_ranges_disjoint : forall total io logins reserved h,
+  0 < logins -> io <= total -> 0 <= reserved < (total - io) / logins ->
+  Forall (wf_mop logins) h ->
+  exists cs outs, (cs0 <- mk_clients total io logins reserved ;; run_multi true cs0 h) = Ok (cs, outs) /\
+    length cs = Z.to_nat logins /\
+    forall i j si sj a n a' n', nth_error cs i = Some si -> nth_error cs j = Some sj ->
+      is_live si a n -> is_live sj a' n' ->
+      io <= a /\ a + n <= total /\ ((i = j /\ a = a' /\ n = n') \/ a + n <= a' \/ a' + n' <= a).
+Proof. intros total io logins reserved h Hl Hio Hres Hwf. exact (server_live_ranges_disjoint_proof total io logins reserved Hl Hio Hres h Hwf). Qed.
+
+(* public reserve() (not called anywhere in sc3): on a reachable state it can raise after having released a LIVE
+   block, which the next alloc hands out again; and it cannot reserve a free address of a fresh allocator *)
+Theorem reserve_releases_live_predecessor :
+  exists ops s outs s' s'', Forall (wf_op 0 8) ops /\
+    (s0 <- init 8 0 0 ;; run true s0 ops) = Ok (s, outs) /\
+    is_live s 0 2 /\ is_live s 2 2 /\
+    reserve true s 2 1 = (s', Raise AttributeError) /\
+    alloc s' 2 0 = Ok (s'', Some 0).
+Proof. exact reserve_releases_live_predecessor_proof. Qed.
+
+Theorem reserve_fresh_raises :
+  exists s0, init 8 0 0 = Ok s0 /\ reserve true s0 5 1 = (s0, Raise AttributeError).
+Proof. exact reserve_fresh_raises_proof. Qed.
 
 (* allocators built by Server for two client ids (server.py _new_bus_allocators/_new_buffer_allocators)
    never hand out a common index, and stay inside [io, total) *)
@@ -104,6 +151,29 @@ Theorem nodeid_in_client_range : forall s k s' ids i, nwf s -> nalloc_many s k =
   nwf s'.
 Proof. exact nodeid_in_client_range_proof. Qed.
 
+(* the same two statements for the allocator whose wrap is the REGENERATED sc3.base.builtins.wrap
+   (model/NodeIdGen.v), for all arguments: bi.wrap on ints is wrap_int ... *)
+Theorem builtins_wrap_on_ints : forall x lo hi, lo <= hi -> py_wrap (I x) (I lo) (I hi) = I (wrap_int x lo hi).
+Proof. exact py_wrap_int. Qed.
+
+(* ... so k allocations always succeed with the ids of the Z model ... *)
+Theorem nodeid_regenerated_total : forall s k, nwf s ->
+  nalloc_py_many s k = Some (nalloc_many s k) /\
+  exists s' ids, nalloc_py_many s k = Some (s', ids) /\ length ids = k /\ nwf s'.
+Proof. intros s k H. split; [apply nalloc_py_many_eq; exact H|apply nodeid_py_total; exact H]. Qed.
+
+Theorem nodeid_window_distinct_regenerated : forall s k s' ids i j, nwf s -> nalloc_py_many s k = Some (s', ids) ->
+  (i < j < k)%nat -> Z.of_nat j - Z.of_nat i < temp_max - init_temp s + 1 ->
+  nth i ids 0 <> nth j ids 0.
+Proof. exact nodeid_py_window_distinct. Qed.
+
+Theorem nodeid_in_client_range_regenerated : forall s k s' ids i, nwf s -> nalloc_py_many s k = Some (s', ids) -> (i < k)%nat ->
+  Z.shiftl (user s) 26 <= nth i ids 0 < Z.shiftl (user s + 1) 26 /\
+  nth i ids 0 = Z.land (nth i ids 0) temp_max + Z.shiftl (user s) 26 /\
+  init_temp s <= nth i ids 0 - Z.shiftl (user s) 26 <= temp_max /\
+  nwf s'.
+Proof. exact nodeid_py_in_client_range. Qed.
+
 Theorem nodeid_init_regular : forall u it s, 0 <= u -> 0 <= it <= temp_max -> ninit u it = Some s ->
   nwf s /\ user s = u /\ init_temp s = it /\ temp s = it.
 Proof. exact ninit_nwf. Qed.
@@ -118,6 +188,18 @@ Proof. vm_compute. reflexivity. Qed.
 
 Example wf_example : Forall (wf_op 20 10) [OAlloc 3 0; OAlloc 4 0; OFree 21; OAlloc 2 21; OFree 24; OFree 21; OAlloc 9 0; OAlloc 1 7].
 Proof. repeat constructor; simpl; auto with zarith. Qed.
+
+Example server_example :
+  match (cs0 <- mk_clients 64 4 4 1 ;; run_multi true cs0 [(2%nat, OAlloc 3 0); (0%nat, OAlloc 14 0); (2%nat, OFree 35); (1%nat, OFree 35); (3%nat, OAlloc 15 0); (2%nat, OAlloc 14 0)]) with
+  | Ok (_, outs) => outs | Raise _ => [] end = [Some 35; Some 5; None; None; None; Some 35].
+Proof. vm_compute. reflexivity. Qed.
+
+Example nodeid_regenerated_wrap_example :
+  match ninit 3 1000 with
+  | Some s => option_map snd (nalloc_py_many (mkN (user s) (init_temp s) (temp_max - 1) (mask s)) 4)
+  | None => None
+  end = Some [268435454; 268435455; 201327592; 201327593].
+Proof. vm_compute. reflexivity. Qed.
 
 Example nodeid_wrap_example :
   match ninit 3 1000 with
@@ -142,3 +224,5 @@ Print Assumptions AInv_reachable.
 Print Assumptions alloc_none_only_if_no_free_run.
 Print Assumptions free_then_available_again.
 Print Assumptions nodeid_window_distinct.
+Print Assumptions nodeid_window_distinct_regenerated.
+Print Assumptions server_live_ranges_disjoint.
